@@ -192,19 +192,35 @@ func (i *Interp) block(pred func() bool, what string) {
 // counted as a preemption); which one is a scheduler decision.
 func (i *Interp) yield() {
 	cur := i.cur
-	var others []*thread
-	for _, t := range i.runnable() {
-		if t != cur {
-			others = append(others, t)
+	if i.schedOn {
+		var others []*thread
+		for _, t := range i.runnable() {
+			if t != cur {
+				others = append(others, t)
+			}
 		}
-	}
-	if len(others) == 0 {
+		if len(others) == 0 {
+			return
+		}
+		next := others[0]
+		if len(others) > 1 {
+			next = others[i.choose(len(others), 's')]
+		}
+		i.switchTo(cur, next)
 		return
 	}
-	next := others[0]
-	if i.schedOn && len(others) > 1 {
-		next = others[i.choose(len(others), 's')]
+	// sequential mode: every other runnable thread gets a turn (in id order)
+	for _, t := range i.threads {
+		if t == cur || t.done {
+			continue
+		}
+		if t.canRun == nil || t.canRun() {
+			i.switchTo(cur, t)
+		}
 	}
+}
+
+func (i *Interp) switchTo(cur, next *thread) {
 	cur.what = "yield"
 	i.cur = next
 	next.wake <- struct{}{}
